@@ -6,6 +6,7 @@ import (
 	"runtime"
 	"runtime/debug"
 	"sort"
+	"strconv"
 	"strings"
 	"sync"
 	"sync/atomic"
@@ -30,8 +31,16 @@ import (
 // demands. Two bounded-exhaustive spaces:
 //
 //   - histories: every sequence of <= depth steps over the alphabet
-//     {import, write, atomic-bulk, bulk, build} applied to a pristine ledger, times
-//     every max block size of a menu; then a final builder run and the block oracle;
+//     {import, write, atomic-bulk, bulk, build, dry-run, failing-atomic-bulk,
+//     retried-write} applied to a pristine ledger, times every max block size of a menu;
+//     then a final builder run and the block oracle. The last three steps BURN log ids:
+//     InsertLog draws the id with nextval, which no rollback ever gives back, so the
+//     committed ids of a ledger are increasing but NOT dense. A dry run burns one id, the
+//     failing atomic bulk two (two elements reach InsertLog, the third one fails), the
+//     retried write one (first attempt aborted on its log INSERT, redone by the ledger's
+//     retry loop) before committing the next one: within the depth the histories hold
+//     holes of 1, 2, 3.. unused ids before, between and after committed logs and builder
+//     runs, smaller than, equal to and larger than the max block size;
 //   - fleet: one system holding more ASYNC ledgers than one page of the builder's ledger
 //     listing, spread over two buckets, one ledger per distinct start state (cycled),
 //     plus a HASH_LOGS=SYNC ledger; ONE builder run; the block oracle on every ASYNC
@@ -44,10 +53,20 @@ const (
 	c34Atomic = "atomic-bulk"
 	c34Bulk   = "bulk"
 	c34Build  = "build"
+	// id burners (see the header)
+	c34Dry        = "dry-run"
+	c34FailAtomic = "failing-atomic-bulk"
+	c34Retried    = "retried-write"
 )
 
-// c34Alphabet is ordered simplest first.
-var c34Alphabet = []string{c34Import, c34Write, c34Atomic, c34Bulk, c34Build}
+// c34Alphabet is ordered simplest first; the id burners come last.
+var c34Alphabet = []string{c34Import, c34Write, c34Atomic, c34Bulk, c34Build, c34Dry, c34FailAtomic, c34Retried}
+
+// c34BurnsOnly: steps that commit nothing whatever happens (they are no fill path).
+var c34BurnsOnly = map[string]bool{c34Dry: true, c34FailAtomic: true}
+
+// c34Burners: every step meant to leave unused log ids behind.
+var c34Burners = []string{c34Dry, c34FailAtomic, c34Retried}
 
 // c34SourceLogs exports the logs of a small source ledger (every log type the default
 // write alphabet produces: two new transactions, transaction and account metadata, a
@@ -85,7 +104,8 @@ func c34SourceLogs(ctx context.Context) ([]ledger.Log, error) {
 
 // c34Step applies one step of a history to ledger name through a controller resolved for
 // that step (as one HTTP request has). ok=false: the request was rejected (an import on
-// a ledger that is not pristine...), the history goes on.
+// a ledger that is not pristine...), the history goes on. For failing-atomic-bulk ok
+// means that the bulk failed as a whole, as intended.
 func c34Step(ctx context.Context, w *world.World, name, step string, src []ledger.Log, maxBlock int) (ok bool, err error) {
 	if step == c34Build {
 		if err := runBlockBuilder(ctx, w, maxBlock); err != nil {
@@ -133,6 +153,55 @@ func c34Step(ctx context.Context, w *world.World, name, step string, src []ledge
 			}
 		}
 		return bo.AllOK, nil
+	case c34Dry:
+		// runs the whole write, log INSERT included, then rolls back: one id burnt
+		out := lx.Apply(ctx, c, lx.Op{Kind: "post", Name: "dry", Postings: []lx.P{p("world", "w", "USD", "3")}, DryRun: true})
+		return out.OK(), engine(out.Err)
+	case c34FailAtomic:
+		// two elements insert their log, the third one fails (nothing was ever sent to
+		// `nofunds`): the whole bulk is rolled back, two ids burnt
+		ops := []lx.Op{
+			post("fb1", p("world", "b", "USD", "2")),
+			{Kind: "accmeta", Name: "accmeta-fb", Address: "b", Meta: map[string]string{"bulk": step}},
+			post("fb-nofunds", p("nofunds", "b", "USD", "1")),
+		}
+		bo, e := pimport.RunBulkOps(ctx, c, true, ops)
+		if e != nil {
+			return false, e
+		}
+		if e := engine(bo.RunErr); e != nil {
+			return false, e
+		}
+		for _, ee := range bo.ElemErr {
+			if e := engine(ee); e != nil {
+				return false, e
+			}
+		}
+		return !bo.AllOK, nil
+	case c34Retried:
+		// The first log INSERT of the request is reported as a deadlock victim (40P01) AFTER
+		// it ran (pgsim.StmtFault.Late: its nextval is drawn, as when the INSERT waits on the
+		// idempotency-key index of an in-progress transaction): the attempt is rolled back,
+		// its id burnt, and the ledger's retry loop (forgeLogRetry) redoes the write.
+		fired := 0
+		logsTable := `INSERT INTO "_default".logs `
+		prev := w.Hook
+		w.Hook = func(_ context.Context, _ *pgsim.Session, hop, sql string) error {
+			if fired == 0 && (hop == "exec" || hop == "query") && strings.HasPrefix(strings.TrimSpace(sql), logsTable) {
+				fired++
+				return &pgsim.StmtFault{Code: "40P01", Msg: "deadlock detected", Late: true}
+			}
+			return nil
+		}
+		out := lx.Apply(ctx, c, post("wr", p("world", "w", "USD", "3")))
+		w.Hook = prev
+		if e := engine(out.Err); e != nil {
+			return false, e
+		}
+		if fired == 0 {
+			return false, fmt.Errorf("retried-write: the write issued no statement starting with %q, no fault was injected", logsTable)
+		}
+		return out.OK(), nil
 	}
 	return false, fmt.Errorf("unknown step %q", step)
 }
@@ -160,6 +229,41 @@ type c34Eval struct {
 	Blocks   int
 	Rejected int
 	Builds   int // builder runs before the final one
+	// id holes: runs of unused log ids that are FOLLOWED by a committed log (the run
+	// 1..k before the first committed log included), read off the committed ids
+	IDs              []int64
+	MaxHole          int  // longest such run
+	HoleGE           bool // some run is >= the max block size
+	HoleGEAfterBlock bool // ... and it opened after a builder run had already made a block
+}
+
+// c34LogIDs: the committed log ids of a ledger of the default bucket, increasing.
+func c34LogIDs(ctx context.Context, w *world.World, name string) ([]int64, error) {
+	rows, err := lx.RawRows(ctx, w, `select id from "_default".logs where ledger = '`+name+`' order by id`)
+	if err != nil {
+		return nil, err
+	}
+	out := make([]int64, 0, len(rows))
+	for _, r := range rows {
+		n, err := strconv.ParseInt(r[0], 10, 64)
+		if err != nil {
+			return nil, fmt.Errorf("log id %q: %v", r[0], err)
+		}
+		out = append(out, n)
+	}
+	return out, nil
+}
+
+// c34HoleTag is the part of a violation signature that tells whether the committed ids
+// of the history were dense ("" then).
+func (e *c34Eval) c34HoleTag() string {
+	switch {
+	case e.HoleGE:
+		return "id-hole-ge-block-size:"
+	case e.MaxHole > 0:
+		return "id-hole-lt-block-size:"
+	}
+	return ""
 }
 
 func c34LedgerState(ctx context.Context, w *world.World, name string) (string, error) {
@@ -180,6 +284,8 @@ func c34RunHistory(ctx context.Context, base *pgsim.DB, src []ledger.Log, steps 
 	defer w.Close()
 	res := &c34Eval{}
 	filled := map[string]bool{}
+	prevMax := int64(0) // highest committed id before the step
+	blockMade := false  // a builder run inside the history found committed logs
 	for i, s := range steps {
 		ok, err := c34Step(ctx, w, "l1", s, src, maxBlock)
 		if err != nil {
@@ -188,11 +294,43 @@ func c34RunHistory(ctx context.Context, base *pgsim.DB, src []ledger.Log, steps 
 		switch {
 		case s == c34Build:
 			res.Builds++
+			if prevMax > 0 {
+				blockMade = true
+			}
+		case c34BurnsOnly[s]:
+			if !ok {
+				res.Rejected++
+			}
 		case ok:
 			filled[s] = true
 		default:
 			res.Rejected++
 		}
+		if s == c34Build {
+			continue
+		}
+		ids, err := c34LogIDs(ctx, w, "l1")
+		if err != nil {
+			return nil, fmt.Errorf("step %d (%s): reading log ids: %w", i, s, err)
+		}
+		for _, id := range ids {
+			if id <= prevMax {
+				continue
+			}
+			if hole := int(id - prevMax - 1); hole > 0 {
+				if hole > res.MaxHole {
+					res.MaxHole = hole
+				}
+				if hole >= maxBlock {
+					res.HoleGE = true
+					if blockMade {
+						res.HoleGEAfterBlock = true
+					}
+				}
+			}
+			prevMax = id
+		}
+		res.IDs = ids
 	}
 	res.Class = c34Class(filled)
 	if err := runBlockBuilder(ctx, w, maxBlock); err != nil {
@@ -414,7 +552,36 @@ func c34Sequential(r *ev.Run) (map[string]any, bool) {
 	}
 	classes := map[string]*classStat{}
 	var evaluated, rejectedSteps, midBuilds int
-	var sample any
+	var sample, holeSample any
+	// id holes (runs of unused ids followed by a committed log), per max block size
+	type holeStat struct {
+		WithHole     int         `json:"evaluations_with_an_id_hole"`
+		HoleLT       int         `json:"evaluations_with_every_hole_below_block_size"`
+		HoleGE       int         `json:"evaluations_with_a_hole_ge_block_size"`
+		HoleGEBlock  int         `json:"of_which_the_hole_opened_after_a_builder_run_made_a_block"`
+		HoleGESilent int         `json:"evaluations_with_a_hole_ge_block_size_oracle_silent"`
+		HoleSizes    map[int]int `json:"evaluations_by_longest_hole"`
+	}
+	holes := map[int]*holeStat{}
+	for _, sz := range sizes {
+		holes[sz] = &holeStat{HoleSizes: map[int]int{}}
+	}
+	// a burner kind is credited with a hole when it is the only burner kind of the history
+	burnerHoles := map[string]int{}
+	soleBurner := func(steps []string) string {
+		kind := ""
+		for _, st := range steps {
+			for _, b := range c34Burners {
+				if st == b {
+					if kind != "" && kind != b {
+						return ""
+					}
+					kind = b
+				}
+			}
+		}
+		return kind
+	}
 	for i, res := range results {
 		if res == nil {
 			continue
@@ -441,9 +608,31 @@ func c34Sequential(r *ev.Run) (map[string]any, bool) {
 		if len(res.Viol) == 0 {
 			cs.Silent++
 		}
+		if res.MaxHole > 0 {
+			hs := holes[tasks[i].size]
+			hs.WithHole++
+			hs.HoleSizes[res.MaxHole]++
+			if res.HoleGE {
+				hs.HoleGE++
+				if res.HoleGEAfterBlock {
+					hs.HoleGEBlock++
+				}
+				if len(res.Viol) == 0 {
+					hs.HoleGESilent++
+				}
+			} else {
+				hs.HoleLT++
+			}
+			if k := soleBurner(tasks[i].steps); k != "" {
+				burnerHoles[k]++
+			}
+			if holeSample == nil && res.HoleGEAfterBlock && len(res.Viol) == 0 {
+				holeSample = map[string]any{"history": tasks[i].steps, "max_block_size": tasks[i].size, "committed_log_ids": res.IDs, "longest_id_hole": res.MaxHole, "blocks": res.Blocks}
+			}
+		}
 		for _, v := range res.Viol {
-			r.Violation("C34:history:"+res.Class+":"+res.State+":"+v[0],
-				fmt.Sprintf("[history %v on a pristine HASH_LOGS=ASYNC ledger, max block size %d, ledger state %s, %d committed logs, %d blocks after the final builder run] %s", tasks[i].steps, tasks[i].size, res.State, res.Logs, res.Blocks, v[1]),
+			r.Violation("C34:history:"+res.Class+":"+res.State+":"+res.c34HoleTag()+v[0],
+				fmt.Sprintf("[history %v on a pristine HASH_LOGS=ASYNC ledger, max block size %d, ledger state %s, committed log ids %v (longest run of unused ids before a committed log: %d), %d blocks after the final builder run] %s", tasks[i].steps, tasks[i].size, res.State, res.IDs, res.MaxHole, res.Blocks, v[1]),
 				c34SeqReplay{Kind: "history", Steps: tasks[i].steps, BlockSize: tasks[i].size})
 		}
 		if sample == nil && res.Class == c34Import && len(res.Viol) == 0 {
@@ -458,6 +647,20 @@ func c34Sequential(r *ev.Run) (map[string]any, bool) {
 	cov["start_state_classes"] = classes
 	if sample != nil {
 		cov["sample"] = sample
+	}
+	cov["id_burning_steps"] = map[string]string{
+		c34Dry:        "dryRun=true write: the log INSERT runs, the transaction is rolled back (1 id)",
+		c34FailAtomic: "atomic bulk of 3 elements, the third fails with insufficient funds after the first two inserted their log: the bulk is rolled back (2 ids)",
+		c34Retried:    "write whose first log INSERT is reported 40P01 after it ran (nextval drawn), attempt rolled back and redone by the ledger's retry loop (1 id, then a committed log)",
+	}
+	holesCov := map[string]any{}
+	for _, sz := range sizes {
+		holesCov[strconv.Itoa(sz)] = holes[sz]
+	}
+	cov["id_holes_by_max_block_size"] = holesCov
+	cov["id_holes_by_sole_burner_kind"] = burnerHoles
+	if holeSample != nil {
+		cov["id_hole_sample"] = holeSample
 	}
 
 	// ----- fleet
@@ -521,6 +724,35 @@ func c34Sequential(r *ev.Run) (map[string]any, bool) {
 		}
 		if rejectedSteps == 0 {
 			r.EngineError("vacuous: no import was ever rejected (import on a written ledger is part of the alphabet)")
+		}
+		// the committed ids must really have had holes: every burner kind opened one, and
+		// for every block size a burnt run between two committed logs can reach within the
+		// depth (write, failing-atomic-bulk x (depth-2), retried-write: 2*(depth-2)+1 ids;
+		// runs before the first committed log get longer but are not counted on)
+		// some history had a hole >= the block size FOLLOWED by committed logs and a builder
+		// run; and some such hole opened after a builder run had already made a block
+		for _, b := range c34Burners {
+			if burnerHoles[b] == 0 {
+				r.EngineError(fmt.Sprintf("vacuous: no history whose only id-burning step kind is %q has an unused log id before a committed log", b))
+			}
+		}
+		reach := 2*(depth-2) + 1
+		afterBlock := 0
+		for _, sz := range sizes {
+			hs := holes[sz]
+			afterBlock += hs.HoleGEBlock
+			if sz > reach {
+				continue
+			}
+			if hs.HoleGE == 0 {
+				r.EngineError(fmt.Sprintf("vacuous: max block size %d: no history has >= %d consecutive unused log ids followed by a committed log and a builder run", sz, sz))
+			}
+			if sz > 1 && hs.HoleLT == 0 {
+				r.EngineError(fmt.Sprintf("vacuous: max block size %d: no history has a hole of unused log ids shorter than the block size", sz))
+			}
+		}
+		if afterBlock == 0 {
+			r.EngineError("vacuous: no history has a hole >= the block size, followed by committed logs, that opened after a builder run had made a block")
 		}
 		if fleetDone && fleetInitWithBlocks == 0 {
 			r.EngineError("vacuous: the fleet holds no `initializing` ledger with committed logs and blocks")
